@@ -568,6 +568,98 @@ example : TopoH [⟨true, [(3, [2, 1])], [3]⟩, ⟨true, [(2, [1]), (1, [])], [
 
 end HLGCull
 
+/-! ## 2b'. `rewrite_blockwise`: the index substitution composes block coordinates -/
+
+theorem traverse_getElem? {α β : Type} (f : α → Option β) (l : List α) (r : List β) (h : traverse f l = some r)
+    (j : Nat) (a : α) (ha : l[j]? = some a) : ∃ b, f a = some b ∧ r[j]? = some b := by
+  induction l generalizing r j with
+  | nil => simp at ha
+  | cons x t ih =>
+    simp only [traverse] at h
+    cases hfx : f x with
+    | none => rw [hfx] at h; simp at h
+    | some y =>
+      rw [hfx] at h
+      cases htr : traverse f t with
+      | none => rw [htr] at h; simp at h
+      | some ys =>
+        rw [htr] at h
+        simp at h
+        subst h
+        cases j with
+        | zero =>
+          simp at ha
+          subst ha
+          exact ⟨y, hfx, by simp⟩
+        | succ k =>
+          simp only [List.getElem?_cons_succ] at ha ⊢
+          exact ih ys htr k ha
+
+/-- **rewrite_coord_sound (output index of the producer).** A consumer entry `(p, cur)` (all symbols of `cur` are
+    output indices of the fused layer) is replaced by the producer's entries with the producer's output symbol `s`
+    (position `j`) renamed to `cur[j]`. For every output block `o` of the fused layer, the coordinate the FUSED layer
+    gives an input of the producer along `s` equals the coordinate the PRODUCER would give it when asked for the block
+    `c'` that the consumer reads from `p` for `o` — provided the consumer's `numblocks` for `p` is consistent with the
+    producer's inputs (`nbq ≠ 1 → np ≠ 1`: an index along which an input has several blocks is not a single block of
+    the producer's output). -/
+theorem rewrite_coord_sound (out pout cur : List Sym) (nbp : List Nat) (o c' : List Nat)
+    (dimsF dimsP : List (Sym × Nat)) (conc : Bool) (p : Nat)
+    (hpn : pout.Nodup)
+    (hc : argCoordsSpec out dimsF conc o { name := p, ind := cur, nb := nbp } = some (c'.map Coord.one))
+    (j : Nat) (s cj : Sym) (np nbq : Nat)
+    (hs : pout[j]? = some s) (hcj : cur[j]? = some cj) (hcjo : cj ∈ out) (hnp : nbp[j]? = some np)
+    (hcons : nbq ≠ 1 → np ≠ 1) :
+    specCoord out dimsF conc o (cj, nbq) = specCoord pout dimsP conc c' (s, nbq) := by
+  have hjlt : j < pout.length := (List.getElem?_eq_some_iff.mp hs).1
+  have hsmem : s ∈ pout := by
+    have := (List.getElem?_eq_some_iff.mp hs).2
+    rw [← this]; exact List.getElem_mem _
+  have hidx : pout.idxOf s = j := by
+    have := (List.getElem?_eq_some_iff.mp hs).2
+    rw [← this]
+    exact List.Nodup.idxOf_getElem hpn j hjlt
+  unfold specCoord
+  simp only [hcjo, hsmem, if_true, hidx]
+  by_cases h1 : nbq = 1
+  · simp [h1]
+  · simp only [h1, if_false]
+    have hnp1 : np ≠ 1 := hcons h1
+    -- the j-th coordinate the consumer reads from p
+    unfold argCoordsSpec at hc
+    have hz : (cur.zip nbp)[j]? = some (cj, np) := by
+      rw [List.getElem?_zip_eq_some]
+      exact ⟨hcj, hnp⟩
+    obtain ⟨b, hb, hrb⟩ := traverse_getElem? _ _ _ hc j (cj, np) hz
+    unfold specCoord at hb
+    simp only [hcjo, if_true, hnp1, if_false] at hb
+    rw [List.getElem?_map] at hrb
+    cases hcv : c'[j]? with
+    | none => rw [hcv] at hrb; simp at hrb
+    | some v =>
+      rw [hcv] at hrb
+      simp at hrb
+      rw [← hrb] at hb
+      cases hov : o[List.idxOf cj out]? with
+      | none => rw [hov] at hb; simp at hb
+      | some w =>
+        rw [hov] at hb
+        simp at hb
+        simp [hb]
+
+/-- **rewrite_coord_sound (contracted index of the producer).** A contracted symbol `s` of the producer is renamed to
+    a fresh name `f` that is not an output index of the fused layer and has the same number of blocks: the fused layer
+    hands over the same list of blocks the producer would. -/
+theorem rewrite_coord_sound_contracted (out pout : List Sym) (o c' : List Nat) (dimsF dimsP : List (Sym × Nat))
+    (conc : Bool) (s f : Sym) (nbq : Nat) (hs : s ∉ pout) (hf : f ∉ out) (hd : dget dimsF f = dget dimsP s) :
+    specCoord out dimsF conc o (f, nbq) = specCoord pout dimsP conc c' (s, nbq) := by
+  unfold specCoord
+  simp [hs, hf, hd]
+
+/-- non-vacuity: consumer `z_ij = g(y_ji)` (y has 2×3 blocks), producer `y_ab = h(x_ab, w_b)`; output block (2, 1) -/
+example : argCoordsSpec [0, 1] [(0, 3), (1, 2)] false [2, 1] { name := 7, ind := [1, 0], nb := [2, 3] }
+    = some ([1, 2].map Coord.one) := by decide
+example : specCoord [0, 1] [(0, 3), (1, 2)] false [2, 1] (0, 3) = specCoord [5, 6] [(5, 2), (6, 3)] false [1, 2] (6, 3) := by decide
+
 /-! ## 2c. `rewrite_blockwise`: one supply of fresh names for the contracted indices of ALL fused producers -/
 section RewriteFresh
 open Dask.Rewrite
